@@ -317,6 +317,10 @@ def check_addition(H, desc, thunk=None):
             fails.append(("existing-edge-altered", f"edge {k}: {tab0[k]} -> {tab1[k]} after {desc['call']}"))
     if order1[: len(order0)] != order0 and not fails:
         fails.append(("edge-order-changed", f"{order0} -> {order1}"))
+    # a well-formed addition (the generator produces no None member, no malformed item) never fails with a
+    # non-library exception: the automatic ID machinery must be usable on a network of any provenance
+    if exc is not None and not isinstance(exc, (xgi.exception.XGIException, xgi.exception.IDNotFound)):
+        fails.append(("addition-raised", f"{desc['call']} raised {type(exc).__name__}: {str(exc)[:160]}"))
     # an automatic single addition must really add (Hypergraph / DiHypergraph)
     if exc is None and desc.get("idx", 0) is None and desc["call"] == "add_edge" and len(order1) != len(order0) + 1:
         fails.append(("auto-add-dropped", f"add_edge with automatic id did not add an edge ({len(order0)} -> {len(order1)} edges; warned={warned})"))
